@@ -38,9 +38,11 @@ Definition uuids_b (n : Z) (ids : list Z) : bool := (Z.of_nat (List.length ids) 
 
 (* ---- label: the name is <stem>.<label><suffix> where <stem><suffix> is the un-labelled name and
         <suffix> is the extension (from the last dot) ---- *)
-Definition no_dot (s : string) : Prop := forall a b, s <> append a (String "."%char b).
+Fixpoint has_dot (s : string) : bool :=
+  match s with EmptyString => false | String c r => Ascii.eqb c "."%char || has_dot r end.
+(* n is n0 with ".<label>" inserted before the extension: n0 = <stem>.<ext>, ext non-empty without dot, stem non-empty *)
 Definition Label_Spec (L n0 n : string) : Prop :=
-  exists st ex, n0 = append st (String "."%char ex) /\ no_dot ex /\ ex <> "" /\ st <> "" /\
+  exists st ex, n0 = append st (String "."%char ex) /\ has_dot ex = false /\ ex <> ""%string /\ st <> ""%string /\
                 n = append st (append "." (append L (String "."%char ex))).
 (* checker on an observed name: its stem (before the extension) ends with ".<label>" *)
 Definition has_label (L name : string) : bool := ends_with (append "." L) (fst (split_ext name)).
